@@ -145,7 +145,9 @@ def cases(draw):
     for j, s in enumerate(G.all_spaces()[:2]):
         if draw(st.booleans()):
             ops.append(["set_ref", list(s.path), "v%d" % j, ["py", draw(st.sampled_from(["[1, 2, 3]", "{'a': 1}", "(4, 5)", "numpy.float64(2.5)", "numpy.int64(7)",
-                                                           "http.HTTPStatus.OK", "fractions.Fraction(1, 3)"]))], None])
+                                                           "http.HTTPStatus.OK", "fractions.Fraction(1, 3)",
+                                                           # floats without a literal spelling
+                                                           "float('inf')", "-float('inf')", "float('nan')", "1e22"]))], None])
     queries = []
     for s in G.all_spaces():
         for n in G.cells_names(s):
